@@ -1060,6 +1060,47 @@ def g6(e: Engine, rep: Report, rule: str):
                           'decision depends on more than how many message '
                           'bytes have arrived' % dep, loc=n.loc(),
                           reason='guarded by size / max_size only')
+    # (c) the verdict is given nowhere else: a MessageTooBig raised outside
+    #     the counting methods is decided on bytes that were not yet cut
+    #     into lines - what follows the end-of-data line in the same read
+    #     (pipelined commands, the next transaction) is charged to the message
+    for mname, m in sorted(c.methods.items()):
+        if mname in counters:
+            continue
+        parents = {}
+        for x in ast.walk(m.node):
+            for ch in ast.iter_child_nodes(x):
+                parents[ch] = x
+        for x in walk_own(m.node):
+            if not (isinstance(x, ast.Raise) and x.exc is not None and
+                    'MessageTooBig' in ast.unparse(x.exc)):
+                continue
+            rep.evaluations += 1
+            tests, y = [], x
+            while y in parents:
+                par = parents[y]
+                if isinstance(par, (ast.If, ast.While)) and \
+                        y is not par.test:
+                    tests.append(par.test)
+                y = par
+            other = sorted({ast.unparse(z) for t in tests
+                            for z in ast.walk(t)
+                            if (isinstance(z, ast.Name) and z.id != 'self')
+                            or (isinstance(z, ast.Attribute) and
+                                isinstance(z.value, ast.Name) and
+                                z.value.id == 'self' and
+                                z.attr not in ('size', 'max_size', 'EOD'))})
+            rep.check(not other, rule, m.qname,
+                      'MessageTooBig raised outside the counting methods',
+                      'the limit is applied to %s - bytes that have not '
+                      'been cut into lines yet: what follows the '
+                      'end-of-data line in the same read (pipelined '
+                      'commands, the next transaction) counts as message '
+                      'bytes, so a message under the limit is refused with '
+                      '552 when it arrives in one burst and accepted when '
+                      'it arrives command by command' % ', '.join(other),
+                      loc=m.loc(x), reason='decided on self.size / '
+                      'self.max_size only')
     if not counters:
         rep.bad(rule, READER, 'bytes are counted where they enter the '
                 'message', 'no method of DataReader counts its argument '
